@@ -13,7 +13,7 @@ from ..common import coq_eval, harness
 from . import c14_gen as G, c14_oracle as O
 
 HEADER = ("From Coq Require Import List NArith ZArith Bool.\n"
-          "From PV Require Import Lib.ListX Model.FmtLit Model.FmtPratt Model.Fmt Model.FmtStmt Model.FmtInst.\n"
+          "From PV Require Import Lib.ListX Model.FmtLit Model.FmtPratt Model.Fmt Model.FmtTy Model.FmtStmt Model.FmtInst.\n"
           "Import ListNotations.\nLocal Open Scope N_scope.\n")
 
 BINOPS = ["Mul", "DivInt", "DivFloat", "Mod", "Pow", "Add", "Sub", "Eq", "Ne", "Gt", "Lt", "Gte", "Lte", "RegexSearch", "And", "Or", "Coalesce"]
@@ -153,6 +153,40 @@ def kind_term(j):
     raise Unsupported("expr kind %s" % sorted(j.keys()))
 
 
+PRIMS = {"Int": "int", "Float": "float", "Bool": "bool", "Text": "text", "Date": "date", "Time": "time", "Timestamp": "timestamp"}
+
+
+def ty_term(j):
+    """pr::Ty JSON -> model type (Model/FmtTy.v)"""
+    if not isinstance(j, dict) or j.get("name") is not None:
+        raise Unsupported("type with a resolved name")
+    k = j["kind"]
+    if "Primitive" in k:
+        return ("TyPrim", codes(PRIMS[k["Primitive"]]))
+    if "Ident" in k:
+        return ("TyIdent", [codes(x) for x in k["Ident"]])
+    if "Function" in k:
+        f = k["Function"]
+        if f is None:
+            return "TyFunc0"
+        if f.get("return_ty") is None or any(x is None for x in f["params"]):
+            raise Unsupported("function type with an unknown part")
+        return ("TyFunc", [ty_term(x) for x in f["params"]], ty_term(f["return_ty"]))
+    if "Array" in k:
+        return "TyArr0" if k["Array"] is None else ("TyArr", ty_term(k["Array"]))
+    if "Tuple" in k:
+        out = []
+        for fld in k["Tuple"]:
+            if "Wildcard" in fld:
+                out.append("TyWild0" if fld["Wildcard"] is None else ("TyWild", ty_term(fld["Wildcard"])))
+            else:
+                nm, t = fld["Single"]
+                n = ("Some", codes(nm)) if nm is not None else "None"
+                out.append(("TyStar", n) if t is None else ("TyField", n, ty_term(t)))
+        return ("TyTuple", out)
+    raise Unsupported("type kind %s" % sorted(k))
+
+
 def stmt_term(st):
     """pr::Stmt JSON -> model statement (Model/FmtStmt.v); doc comments are not part of the trees"""
     anns = [term(a["expr"]) for a in st.get("annotations") or []]
@@ -169,6 +203,9 @@ def stmt_term(st):
         if v["kind"] == "Into":
             return ("SInto", anns, term(v["value"]), codes(v["name"]))
         raise Unsupported("VarDef kind " + str(v["kind"]))
+    if "TypeDef" in st:
+        d = st["TypeDef"]
+        return ("STypeDef", anns, codes(d["name"]), ty_term(d["value"]))
     if "ImportDef" in st:
         d = st["ImportDef"]
         return ("SImport", anns, ("Some", codes(d["alias"])) if d.get("alias") is not None else "None", [codes(x) for x in d["name"]])
@@ -298,6 +335,7 @@ def model_tokens(toks, symidx):
     """canonical real tokens of one expression -> Coq list of model tokens, or Unsupported"""
     out = []
     stack = []
+    in_type = None     # bracket depth at which a `type` definition started (up to the next line break at that depth)
     header = None      # bracket depth at which a lambda header (`func` ... `->`) is open
     i = 0
     n = len(toks)
@@ -329,10 +367,20 @@ def model_tokens(toks, symidx):
             out.append("(TRg %s %s)" % (coq(t["Range"][0]), coq(t["Range"][1])))
         elif t == "NewLine":
             out.append("(TNL 0%nat)")
+            if in_type is not None and in_type == len(stack):
+                in_type = None
         elif t == "Annotate":
             out.append("TAnn")
-        elif isinstance(t, dict) and t.get("Keyword") in ("let", "module", "import", "into"):
+        elif isinstance(t, dict) and t.get("Keyword") in ("let", "module", "import", "into", "type"):
             out.append("(TKw K%s)" % t["Keyword"].capitalize())
+            if t["Keyword"] == "type":
+                in_type = len(stack)
+        elif in_type is not None and t == {"Control": "*"}:
+            out.append("TStar")
+        elif in_type is not None and isinstance(t, dict) and t.get("Keyword") == "func":
+            out.append("TFunc")
+        elif in_type is not None and t == "ArrowThin":
+            out.append("TThin")
         elif isinstance(t, dict) and "Keyword" in t:
             if t["Keyword"] == "case" and nxt == {"Control": "["}:
                 out.append("(TOpen GCase)")
@@ -575,6 +623,8 @@ def run_programs(ck, symidx):
     for _ in range(ck.n(120, 2000)):
         cases.append(("corr-prog-hostile", P.syntactic(rng)))
     P.CLEAN[0] = True
+    for _ in range(ck.n(150, 2500)):
+        cases.append(("corr-prog-types", "type %s = %s\n" % (rng.choice(["t", "`my ty`", "long_type_name"]), G.gen_type(rng, rng.choice([1, 2, 2, 3])))))
     answers = harness("c14", [{"src": s, "targets": [], "compile": False} for _, s in cases])
     todo = []
     for (stream, src), a in zip(cases, answers):
